@@ -43,7 +43,7 @@ func (v Value) MarshalJSON() ([]byte, error) {
 		p = 0
 	case "errs":
 		p = v.I
-	case "str", "enum", "node", "err", "var", "num", "other", "float":
+	case "str", "enum", "node", "err", "errval", "var", "num", "other", "float":
 		p = v.S
 	case "int":
 		p = v.I
@@ -82,7 +82,7 @@ func (v *Value) UnmarshalJSON(b []byte) error {
 	case "null", "echo", "absent":
 	case "errs":
 		return json.Unmarshal(raw.V, &v.I)
-	case "str", "enum", "node", "err", "var", "num", "other", "float":
+	case "str", "enum", "node", "err", "errval", "var", "num", "other", "float":
 		return json.Unmarshal(raw.V, &v.S)
 	case "int":
 		return json.Unmarshal(raw.V, &v.I)
@@ -108,7 +108,7 @@ func (v Value) Equal(o Value) bool {
 		return false
 	}
 	switch v.K {
-	case "str", "enum", "node", "err", "var", "num", "other", "float":
+	case "str", "enum", "node", "err", "errval", "var", "num", "other", "float":
 		return v.S == o.S
 	case "int":
 		return v.I == o.I
